@@ -104,12 +104,18 @@ func main() {
 	if only == nil && !*noEvidence {
 		_ = os.Remove(evPath)
 	}
-	p, err := core.Load(core.LoadOptions{Dir: *repo, Tests: tier == "thorough"})
+	p, err := core.Load(core.LoadOptions{Dir: *repo})
 	if err != nil {
 		fmt.Printf("UNDECIDED load — %v\n", err)
 		os.Exit(2)
 	}
 	fmt.Printf("# %s %s: loaded %d repository packages in %.1fs, SSA %.1fs\n", prop, tier, len(p.Roots), p.LoadSecs, p.SSASecs)
+	if tier == "thorough" && only == nil {
+		// deeper: reachability (confinement, crash sites, wrap chains, map-order scopes) is computed on the
+		// whole-program VTA graph, which resolves callbacks made by dependencies (bstream handlers, errgroup, dstore walks)
+		p.WholeCG = true
+		p.Thorough = true
+	}
 	r := core.NewReport(prop)
 	def.Run(p, r)
 
